@@ -127,7 +127,38 @@ func (r *retryRunner) Do(op []string) string {
 	panic("harness: bad op " + op[0])
 }
 
+// -- Once on the real clock with an entry that expires during the calls
+//
+//	CASE oncelive <lifetimeMicroseconds>
+//	spin <n> => ok | zero <call number>
+//
+// Every result of the callback is non-zero, so a call of Once that returns the zero value returned neither "that first
+// result" nor the result of a new run: the entry expired between two lookups of the same call.  (On the virtual clock a
+// call happens at one instant; here time really passes inside a call.)  A verdict only from a wrong VALUE.
+type onceLiveRunner struct{ life int }
+
+func (r *onceLiveRunner) Do(op []string) string {
+	if op[0] != "spin" {
+		panic("harness: bad op " + op[0])
+	}
+	n := atoi(op[1])
+	c := cache.New[string, int](time.Duration(r.life)*time.Microsecond, 0)
+	next := 0
+	begin := time.Now()
+	for i := 0; i < n; i++ {
+		if i%64 == 0 && time.Since(begin) > hangLimit/4 {
+			break
+		}
+		v := gogu.Once[string, int, int](c, func() int { next++; return next })
+		if v == 0 {
+			return "zero " + itoa(i)
+		}
+	}
+	return "ok"
+}
+
 func init() {
+	kinds["oncelive"] = func(p []string) Runner { return &onceLiveRunner{life: atoi(p[0])} }
 	for _, k := range []string{"after", "before", "once", "retry"} {
 		timedKinds[k] = true
 	}
@@ -143,6 +174,16 @@ func init() {
 }
 
 func genC18(g *Gen) {
+	// Once on the real clock: entries that expire while calls are under way
+	for _, life := range []int{50, 20, 200} {
+		if g.Mine() {
+			n := "20000"
+			if g.Thorough() {
+				n = "400000"
+			}
+			g.Emit("oncelive", []string{itoa(life)}, []string{"spin " + n})
+		}
+	}
 	maxN, maxCalls, maxScript := 8, 12, 6
 	if g.Thorough() {
 		maxScript = 8
